@@ -6,13 +6,8 @@
   access lies between its operation's call and its return.  Threads are explicit here (Props/C19's lock model is the
   counter abstraction of this one).
 -/
+import Model.MapSpec
 namespace Lin
-
-/-- the sequential specification of a shared object: `apply` performs an operation, `isWrite` says which operations take
-    the WRITE lock (the others take the read lock and may overlap each other) -/
-structure Spec (σ ι ο : Type) where
-  apply : σ → ι → σ × ο
-  isWrite : ι → Bool
 
 /-- where a thread is: idle; has called `op`; holds the lock; has performed the access (still holding the lock); has
     released the lock (about to return `out`) -/
@@ -275,33 +270,6 @@ theorem linearizable (S : Spec σ ι ο) (d0 : σ) (s : St σ ι ο) (h : Reach 
   ⟨legal_reach S d0 s h, order_reach S d0 s h, excl_reach S d0 s h⟩
 
 /-! ### two instances: the map beneath the container, and a priced function object -/
-
-section Map
-variable {κ ν : Type} [DecidableEq κ]
-
-inductive MapOp (κ ν : Type)
-  | get (k : κ) | insert (k : κ) (v : ν) | set (k : κ) (v : ν) | remove (k : κ) | len | keys
-
-inductive MapOut (κ ν : Type)
-  | val (o : Option ν) | ok (b : Bool) | unit | num (n : Nat) | list (l : List κ)
-
-def mget (m : List (κ × ν)) (k : κ) : Option ν := (m.find? (fun p => p.1 = k)).map (·.2)
-def mdel (m : List (κ × ν)) (k : κ) : List (κ × ν) := m.filter (fun p => p.1 ≠ k)
-
-/-- `MutexMap`: Get / Len / Keys under the read lock; Insert (test-and-set), Set, Remove under the write lock -/
-def mapSpec : Spec (List (κ × ν)) (MapOp κ ν) (MapOut κ ν) where
-  apply m
-    | .get k => (m, .val (mget m k))
-    | .insert k v => if (mget m k).isSome then (m, .ok false) else ((k, v) :: m, .ok true)
-    | .set k v => ((k, v) :: mdel m k, .unit)
-    | .remove k => (mdel m k, .unit)
-    | .len => (m, .num m.length)
-    | .keys => (m, .list (m.map (·.1)))
-  isWrite
-    | .insert _ _ | .set _ _ | .remove _ => true
-    | _ => false
-
-end Map
 
 /-- a priced function object: `SetNewGasConfig` installs a schedule under the write lock, an execution reads the
     schedule (its own cost and the base costs) inside ONE read section -/
